@@ -491,8 +491,13 @@ class Gen:
                 return self.binop(a, op, b)
             if c < 0.85:
                 return "(" + term(d - 1) + ")"
-            if c < 0.93:
+            if c < 0.91:
                 return self.binop(term(d - 1), "**", r.choice(["2", "3", "2", "1"]))
+            if c < 0.94:
+                # a fractional power of an even power: real for every real measurement value, and a formula that must not
+                # be "simplified" as if the measured values were real and positive
+                self.tags.add("regref-fractional-power")
+                return "(" + self.binop(term(d - 1), "**", r.choice(["2", "2", "4"])) + ")" + self.sp() + "**" + self.sp() + r.choice(["0.5", "1.5", "0.25", "2.5e-1"])
             return "-" + term(d - 1)
 
         e = term(depth)
